@@ -59,6 +59,8 @@ pub enum Action {
     LockDeliver,
     /// prefix-only: drop every in-flight message addressed to / sent by this node
     Isolate(u8),
+    /// prefix only: the application changes the node's election priority (Raft::set_priority)
+    SetPrio(u8, u8),
     /// prefix-only: drop all in-flight messages
     DropAll,
 }
